@@ -111,6 +111,22 @@ pub fn add_fault(kind: &str, skip: u64) {
     }
 }
 
+/// When set, every create / write the CALLER thread performs on a chunk file is followed
+/// by a directory snapshot in the log (`c snap ...`): crash points inside API calls.
+pub static AUTO_SNAP: std::sync::atomic::AtomicBool = std::sync::atomic::AtomicBool::new(false);
+
+fn auto_snap() {
+    if !AUTO_SNAP.load(std::sync::atomic::Ordering::SeqCst) || role() != "c" {
+        return;
+    }
+    let dir = match CTL.lock().unwrap().as_ref() {
+        Some(c) if c.enabled => c.dir.clone(),
+        _ => return,
+    };
+    let snap = crate::proto::disk_str(&dir);
+    logline(format!("c snap {}", snap));
+}
+
 pub fn set_gate(armed: bool) {
     let mut g = CTL.lock().unwrap();
     if let Some(c) = g.as_mut() {
@@ -143,6 +159,27 @@ pub fn worker_sleeping() -> bool {
         }
     }
     true
+}
+
+/// A freshly spawned thread carries its parent's name until it has run for the first time
+/// (it sets its own name), so right after `open` the flush worker may not yet be
+/// recognisable in /proc. Wait until it is (bounded).
+pub fn wait_worker_named() {
+    let hard = Instant::now() + Duration::from_secs(20);
+    loop {
+        if let Ok(rd) = std::fs::read_dir("/proc/self/task") {
+            for e in rd.flatten() {
+                let comm = std::fs::read_to_string(e.path().join("comm")).unwrap_or_default();
+                if comm.starts_with("raft_log_wal_fl") {
+                    return;
+                }
+            }
+        }
+        if Instant::now() > hard {
+            return;
+        }
+        std::thread::sleep(Duration::from_micros(200));
+    }
 }
 
 /// Wait until the worker is parked at the gate (true) or idle (false).
@@ -334,6 +371,10 @@ pub unsafe extern "C" fn open64(path: *const c_char, flags: c_int, mode: libc::m
                         lock_log(&format!("{} openchunk {}", role(), id));
                     }
                 }
+                drop(g);
+                if id != "LOCK" && creat && fd >= 0 {
+                    auto_snap();
+                }
             }
             fd
         },
@@ -382,6 +423,7 @@ pub unsafe extern "C" fn write(fd: c_int, buf: *const c_void, count: libc::size_
                 } else {
                     let res = raw();
                     event_done(format!("{} write {} {} {}", r, id, count, if res >= 0 { "ok" } else { "fail" }), false);
+                    auto_snap();
                     res
                 }
             }
